@@ -1440,7 +1440,7 @@ func run(r *core.R) {
 				pOn = 850
 			}
 			if k == "iface_route_list" {
-				pOn = 600
+				pOn = 800
 			}
 			if r.Src.Chance(pOn, "cfg_fault_on_"+k) {
 				w.rate[k] = r.Src.Range(20, 250, "cfg_fault_rate_"+k)
@@ -1449,7 +1449,7 @@ func run(r *core.R) {
 				}
 				if k == "iface_route_list" {
 					// the OIF-filtered dump that follows a link flap is the call with in-flight state
-					w.rate[k] = r.Src.Range(100, 500, "cfg_fault_rate_iface_list")
+					w.rate[k] = r.Src.Range(150, 600, "cfg_fault_rate_iface_list")
 				}
 				enabled++
 			}
